@@ -8,7 +8,8 @@ import tolean
 from lib import esc, unesc
 
 THEOREMS = ['C03.C03_kept_iff', 'C03.C03_marker_gone', 'C03.C03_unguarded_unchanged', 'C03.C03_spec_append',
-            'C03.C03_inline_present', 'C03.C03_para_present', 'C03.C03_target_table']
+            'C03.C03_inline_present', 'C03.C03_para_present', 'C03.C03_target_table', 'C03.C03_refines_inline_partial',
+            'C03.C03_model_line_by_line']
 TARGETS = [(d, a, v) for d in lib.DISTS for (a, v) in lib.ABIVERS]
 WORDS = ['arch', 'debian', 'ubuntu', 'opensuse', 'whonix', 'apt', 'pacman', 'zypper', 'abi3', 'abi4', 'apparmor3.0',
          'apparmor4.0', 'apparmor4.1', 'apparmor4', 'fedora', 'abi', 'apparmor4x1']
@@ -121,10 +122,16 @@ def run(ctx):
 
     # ---- judge the real code by the specification on well-formed texts ------------------------
     sp = ctx.run_lean('filterspec', ops)
-    nwf = nfail = nknown = 0
+    nwf = nfail = nknown = nproved = 0
+    proved_files = set()
     for i, s in enumerate(sp):
-        wf, spec = s.split('\t')
+        wf, spec, inl = s.split('\t')
         name, t, tgt = meta[i]
+        if inl == '1' and '#aa:' in t:
+            # the text lies in the class for which model = specification is a theorem (C03_refines_inline_partial)
+            nproved += 1
+            if name != 'gen':
+                proved_files.add(name)
         if wf != '1':
             if name != 'gen' and go[i] != 'ok\t' + spec:
                 # a SHIPPED file whose directive layout is outside the well-formed class and on which the real code leaves the
@@ -147,7 +154,8 @@ def run(ctx):
                               {'op': ops[i], 'file': name, 'target': list(tgt), 'input': t, 'real_output': go[i], 'spec_output': spec})
     ctx.count_distinct([ops[i] for i, s in enumerate(sp) if s.startswith('1')])
     ctx.cov['search']['spec_judged'] = {'texts': len(ops), 'well_formed': nwf, 'failing': nfail, 'known_class_hits': nknown,
-                                        'shipped_files': len(ship)}
+                                        'shipped_files': len(ship), 'texts_in_the_proved_refinement_class': nproved,
+                                        'shipped_files_in_the_proved_refinement_class': len(proved_files)}
     ctx.sample({'input': meta[0][1], 'target': list(meta[0][2]), 'real_output': go[0], 'spec': sp[0]})
     ctx.cov['rule'] = ('texts rendered from generated item lists (plain lines, inline guarded rules, guarded paragraphs; 1/4 made '
                        'ill-formed) x random target, plus every shipped file with only/exclude x targets; non-trivial = wf text '
@@ -156,7 +164,7 @@ def run(ctx):
         ctx.violation('obligation or correspondence broken: ' + '; '.join(broken)[:600], {'broken': broken}, concrete=False)
     ctx.cov['broken'] += broken
     ctx.assumptions += ['dbus/exec/stack directives in shipped files are neutralised for this check (C07 covers them)',
-                        'refinement model = spec on wf texts is validated by evaluation, not proved']
+                        'refinement model = spec is a theorem for the inline form (any number of directives, C03_refines_inline_partial); for guarded paragraphs it is validated by evaluation, not proved']
 
 
 def replay(ctx, data):
